@@ -153,3 +153,129 @@ def to_poly(node: ast.AST, leaf: Callable[[ast.AST], Optional[Poly]], strip_call
         if isinstance(node.func, ast.Attribute) and node.func.attr in strip_calls:
             return to_poly(node.func.value, leaf, strip_calls)
     return None
+
+
+# ---- float-exact expression trees ------------------------------------------------------------------------------
+# IEEE addition and multiplication are commutative but neither associative nor distributive: two expressions give
+# bit-identical results for all inputs only if they agree as trees up to swapping the operands of + and *.
+
+def ftree(node: ast.AST, leaf: Callable[[ast.AST], Optional[str]]):
+    name = leaf(node)
+    if name is not None:
+        return ("sym", name)
+    if isinstance(node, ast.Constant) and isinstance(node.value, (int, float)) and not isinstance(node.value, bool):
+        return ("const", node.value)
+    if isinstance(node, ast.UnaryOp) and isinstance(node.op, ast.USub):
+        a = ftree(node.operand, leaf)
+        return None if a is None else ("neg", a)
+    if isinstance(node, ast.BinOp):
+        a, b = ftree(node.left, leaf), ftree(node.right, leaf)
+        if a is None or b is None:
+            return None
+        if isinstance(node.op, (ast.Add, ast.Mult)):
+            return ("+" if isinstance(node.op, ast.Add) else "*",) + tuple(sorted((a, b), key=repr))
+        op = {ast.Sub: "-", ast.Div: "/", ast.FloorDiv: "//", ast.Pow: "**", ast.Mod: "%"}.get(type(node.op))
+        return None if op is None else (op, a, b)
+    return None
+
+
+def fsubst(tree, name: str, repl):
+    """Replace symbol `name`; drop an exact integer-zero summand (x + 0 == x in IEEE arithmetic for x != -0.0)."""
+    if tree is None:
+        return None
+    if tree == ("sym", name):
+        return repl
+    if tree[0] in ("sym", "const"):
+        return tree
+    kids = [fsubst(k, name, repl) for k in tree[1:]]
+    if tree[0] == "+":
+        nz = [k for k in kids if k != ("const", 0)]
+        if len(nz) == 1:
+            return nz[0]
+    if tree[0] in ("+", "*"):
+        kids = sorted(kids, key=repr)
+    return (tree[0],) + tuple(kids)
+
+
+# ---- rational functions with opaque function applications ------------------------------------------------------
+# (numerator, denominator) pairs of Poly; f(arg) becomes a fresh symbol shared by all applications of f to an equal
+# argument, so closed formulas such as ceil(1 + log2(n) + log2(1 + |g| / sqrt(6 (n-2) / ((n+1)(n+3))))) can be compared
+# with a table entry independently of how the source spells / associates / names the pieces.
+
+MATH_FUNCS = ("sqrt", "log2", "log10", "log", "exp", "ceil", "floor", "abs", "absolute", "cbrt")
+
+
+class RatCtx:
+    def __init__(self):
+        self.table = []   # (fn, rat, symbol name)
+
+    def apply(self, fn: str, rat):
+        fn = {"absolute": "abs"}.get(fn, fn)
+        if fn in ("ceil", "floor"):
+            p, q = rat
+            if q == Poly.const(1):
+                c = p.t.get((), Fraction(0))
+                if c != 0 and c.denominator == 1:
+                    inner = self.apply(fn, (p - Poly.const(c), q))
+                    return (inner[0] + Poly.const(c) * inner[1], inner[1])
+        for f, r, s in self.table:
+            if f == fn and rat_eq(r, rat):
+                return (Poly.sym(s), Poly.const(1))
+        s = f"{fn}#{len(self.table)}"
+        self.table.append((fn, rat, s))
+        return (Poly.sym(s), Poly.const(1))
+
+
+def rat_eq(a, b) -> bool:
+    return a is not None and b is not None and a[0] * b[1] == b[0] * a[1]
+
+
+def to_rat(node: ast.AST, leaf, rc: RatCtx, strip=("int", "float")):
+    one = Poly.const(1)
+    r = leaf(node)
+    if r is not None:
+        return r if isinstance(r, tuple) else (r, one)
+    if isinstance(node, ast.Constant) and isinstance(node.value, (int, float)) and not isinstance(node.value, bool):
+        return (Poly.const(Fraction(str(node.value))), one)
+    if isinstance(node, ast.UnaryOp) and isinstance(node.op, (ast.USub, ast.UAdd)):
+        v = to_rat(node.operand, leaf, rc, strip)
+        return None if v is None else ((-v[0], v[1]) if isinstance(node.op, ast.USub) else v)
+    if isinstance(node, ast.BinOp):
+        a = to_rat(node.left, leaf, rc, strip)
+        b = to_rat(node.right, leaf, rc, strip)
+        if a is None or b is None:
+            return None
+        if isinstance(node.op, ast.Add):
+            return (a[0] * b[1] + b[0] * a[1], a[1] * b[1])
+        if isinstance(node.op, ast.Sub):
+            return (a[0] * b[1] - b[0] * a[1], a[1] * b[1])
+        if isinstance(node.op, ast.Mult):
+            return (a[0] * b[0], a[1] * b[1])
+        if isinstance(node.op, ast.Div):
+            return (a[0] * b[1], a[1] * b[0])
+        if isinstance(node.op, ast.Pow):
+            return _rat_pow(a, b)
+        return None
+    if isinstance(node, ast.Call):
+        name = U(node.func).split(".")[-1]
+        if name in strip and len(node.args) == 1:
+            return to_rat(node.args[0], leaf, rc, strip)
+        if name == "power" and len(node.args) == 2:
+            a = to_rat(node.args[0], leaf, rc, strip)
+            b = to_rat(node.args[1], leaf, rc, strip)
+            return None if a is None or b is None else _rat_pow(a, b)
+        if name in MATH_FUNCS and len(node.args) == 1:
+            a = to_rat(node.args[0], leaf, rc, strip)
+            return None if a is None else rc.apply(name, a)
+    return None
+
+
+def _rat_pow(a, b):
+    cn, cd = b[0].t.get((), None), b[1].t.get((), None)
+    if cn is None or cd is None or len(b[0].t) != 1 or len(b[1].t) != 1:
+        return None
+    e = cn / cd
+    if e < 0:
+        a, e = (a[1], a[0]), -e
+    p, q = a[0].pow(e), a[1].pow(e)
+    return None if p is None or q is None else (p, q)
